@@ -1,5 +1,5 @@
 (* Proofs about Model/Plc.v (property C19). *)
-From Coq Require Import ZArith List Bool Lia Sorting.Sorted ZifyBool.
+From Coq Require Import ZArith List Bool Lia Sorting.Sorted Sorting.Permutation ZifyBool.
 From CV Require Import Model.Plc.
 Import ListNotations.
 Open Scope Z_scope.
@@ -396,3 +396,46 @@ Proof.
   pose proof (Z.div_mod (c + l - 1) l ltac:(lia)) as Hdm.
   pose proof (Z.mod_pos_bound (c + l - 1) l ltac:(lia)) as Hmb. nia.
 Qed.
+
+(* ---- the request list is a set of ranges: its order does not matter -------------------- *)
+
+Lemma le_range_total r s : le_range r s = true \/ le_range s r = true.
+Proof. destruct r as [a c], s as [b d]; unfold le_range; simpl; lia. Qed.
+
+Lemma le_range_antisym r s : le_range r s = true -> le_range s r = true -> r = s.
+Proof. destruct r as [a c], s as [b d]; unfold le_range; simpl; intros H1 H2.
+  assert (a = b /\ c = d) as [-> ->] by lia. reflexivity. Qed.
+
+Lemma le_range_trans r s t : le_range r s = true -> le_range s t = true -> le_range r t = true.
+Proof. destruct r as [a c], s as [b d], t as [e f]; unfold le_range; simpl; lia. Qed.
+
+Lemma insert_comm a b : forall l, insert a (insert b l) = insert b (insert a l).
+Proof.
+  induction l as [|s t IH]; cbn [insert].
+  - destruct (le_range a b) eqn:Eab, (le_range b a) eqn:Eba; try reflexivity.
+    + rewrite (le_range_antisym a b Eab Eba). reflexivity.
+    + destruct (le_range_total a b); congruence.
+  - destruct (le_range b s) eqn:Ebs, (le_range a s) eqn:Eas; cbn [insert]; rewrite ?Ebs, ?Eas.
+    + destruct (le_range a b) eqn:Eab, (le_range b a) eqn:Eba; rewrite ?Eas, ?Ebs; try reflexivity.
+      * rewrite (le_range_antisym a b Eab Eba). reflexivity.
+      * destruct (le_range_total a b); congruence.
+    + destruct (le_range a b) eqn:Eab.
+      * rewrite (le_range_trans a b s Eab Ebs) in Eas. discriminate.
+      * reflexivity.
+    + destruct (le_range b a) eqn:Eba.
+      * rewrite (le_range_trans b a s Eba Eas) in Ebs. discriminate.
+      * reflexivity.
+    + rewrite IH. reflexivity.
+Qed.
+
+Lemma sort_perm l l' : Permutation l l' -> sort l = sort l'.
+Proof.
+  induction 1 as [|x l l' _ IH|x y l|l l' l'' _ IH1 _ IH2]; cbn [sort].
+  - reflexivity.
+  - rewrite IH. reflexivity.
+  - apply insert_comm.
+  - congruence.
+Qed.
+
+Lemma merge_perm rs rs' reach limit : Permutation rs rs' -> merge rs reach limit = merge rs' reach limit.
+Proof. intros H. unfold merge. rewrite (sort_perm rs rs' H). reflexivity. Qed.
